@@ -441,29 +441,51 @@ func runPhase(test string, c phaseCase, w int, drainOnErr bool) (res []result, s
 // looksProtein: the string holds a letter that is an amino acid and not a nucleotide code
 func looksProtein(aa string) bool { return strings.ContainsAny(aa, "QEILFPZ") }
 
-// effectiveRef returns the single reference the verbatim clause can be applied to ("" if the
-// reference is not determined: several references, or several longest ORFs)
-func effectiveRef(c phaseCase) string {
-	if len(c.Orfs) == 1 {
-		return fold(c.Orfs[0].Seq)
-	}
-	if len(c.Orfs) == 0 {
-		var ss []string
-		for _, r := range c.Seqs {
-			ss = append(ss, r.Seq)
+// effectiveRefs returns the references (case-folded) the verbatim clause can be applied to: the
+// given ones, or the unique naive longest ORF when none is given (nil when that one is not
+// determined)
+func effectiveRefs(c phaseCase) []string {
+	if len(c.Orfs) > 0 {
+		var out []string
+		for _, r := range c.Orfs {
+			out = append(out, fold(r.Seq))
 		}
-		_, set := naiveLongest(ss, c.Reverse)
-		if len(set) == 1 {
-			for o := range set {
-				return o
-			}
+		return out
+	}
+	var ss []string
+	for _, r := range c.Seqs {
+		ss = append(ss, r.Seq)
+	}
+	_, set := naiveLongest(ss, c.Reverse)
+	if len(set) == 1 {
+		for o := range set {
+			return []string{o}
 		}
 	}
-	return ""
+	return nil
+}
+
+// BLOSUM62 diagonal (Henikoff & Henikoff 1992; '*' = 1 as in the NCBI / EMBOSS files): the score
+// of a residue aligned with itself, which no other pairing of that residue exceeds
+var blosum62Self = map[byte]int{'A': 4, 'R': 5, 'N': 6, 'D': 6, 'C': 9, 'Q': 5, 'E': 5, 'G': 6, 'H': 8, 'I': 4,
+	'L': 4, 'K': 5, 'M': 5, 'F': 6, 'P': 7, 'S': 4, 'T': 5, 'W': 11, 'Y': 7, 'V': 4, '*': 1}
+
+// selfScore: the score of the reference aligned with a verbatim copy of itself = an upper bound of
+// the score of any alignment of that reference (all gap and mismatch scores are lower); for
+// nucleotides every match scores the same, so the length is the bound
+func selfScore(ref string, translate bool, code string) int {
+	if !translate {
+		return len(ref)
+	}
+	n := 0
+	for _, a := range []byte(tr(ref, code)) {
+		n += blosum62Self[a]
+	}
+	return n
 }
 
 // judgeResult applies the per-sequence relations of the statement
-func judgeResult(c phaseCase, input string, ref string, r result, o *pbt.Outcome) error {
+func judgeResult(c phaseCase, input string, refs []string, r result, o *pbt.Outcome) error {
 	// relations are judged on the case-folded, U->T form; the residues themselves must be the
 	// original ones on the forward strand; on the reverse strand the case / U convention of the
 	// complement is not stated: the observed one (case kept, DNA letters) or any other is accepted
@@ -506,39 +528,56 @@ func judgeResult(c phaseCase, input string, ref string, r result, o *pbt.Outcome
 	if r.CodonName != r.Name || r.AaName != r.Name {
 		return fmt.Errorf("%s: codon / amino-acid sequences are named %q / %q", r.Name, r.CodonName, r.AaName)
 	}
-	// verbatim clause
-	if ref == "" {
+	// verbatim clause: exactly one verbatim occurrence of exactly one reference in the strands
+	// searched, and no other reference whose best possible score exceeds the score of that copy
+	// (with one reference, or none supplied, this is the plain "contains it verbatim once")
+	if len(refs) == 0 {
 		return nil
 	}
-	total, where, strand := 0, -1, -1
-	for k, s := range strands {
-		n, first := occurrences(s, ref)
-		total += n
-		if n > 0 && where < 0 {
-			where, strand = first, k
+	total, where, strand, which := 0, -1, -1, -1
+	for ri, ref := range refs {
+		for k, s := range strands {
+			n, first := occurrences(s, ref)
+			total += n
+			if n > 0 && where < 0 {
+				where, strand, which = first, k, ri
+			}
 		}
 	}
 	if total != 1 {
 		return nil
 	}
-	if c.Translate {
-		aref := tr(ref, c.Code)
-		if !looksProtein(aref) {
-			// every letter of the translated reference is also a nucleotide code: the aligner
-			// may take it for DNA; what "best alignment" means then is not stated
-			o.Ambiguous++
+	ref := refs[which]
+	for ri, other := range refs {
+		if ri != which && selfScore(other, c.Translate, c.Code) > selfScore(ref, c.Translate, c.Code) {
 			return nil
 		}
+	}
+	if c.Translate {
+		for _, other := range refs {
+			if !looksProtein(tr(other, c.Code)) {
+				// every letter of a translated reference is also a nucleotide code: the aligner
+				// may take it for DNA; what "best alignment" means then is not stated
+				o.Ambiguous++
+				return nil
+			}
+		}
 		n := 0
-		for _, s := range strands {
-			for f := 0; f < 3 && f <= len(s); f++ {
-				k, _ := occurrences(tr(s[f:], c.Code), aref)
-				n += k
+		for _, other := range refs {
+			aref := tr(other, c.Code)
+			for _, s := range strands {
+				for f := 0; f < 3 && f <= len(s); f++ {
+					k, _ := occurrences(tr(s[f:], c.Code), aref)
+					n += k
+				}
 			}
 		}
 		if n != 1 {
 			return nil
 		}
+	}
+	if len(refs) > 1 {
+		o.Class("verbatim-once-among-several-references")
 	}
 	o.Class("verbatim-once")
 	if r.Pos != where || okStrand != strand && strands[okStrand][r.Pos:] != strands[strand][where:] {
@@ -559,7 +598,7 @@ func checkPhase(test string) func(c phaseCase) (pbt.Outcome, error) {
 			input[r.Name] = r.Seq
 			plain = append(plain, r.Seq)
 		}
-		ref := effectiveRef(c)
+		ref := effectiveRefs(c)
 		noORF := false
 		if len(c.Orfs) == 0 {
 			if m, _ := naiveLongest(plain, c.Reverse); m == 0 {
@@ -1178,7 +1217,7 @@ func TestCLI(t *testing.T) {
 		if len(nt) != len(pc.Seqs) || len(aa) != len(pc.Seqs) || len(codon) != len(pc.Seqs) || len(pos) != len(pc.Seqs) {
 			return o, fmt.Errorf("goalign %v: %d input sequences, %d nucleotide / %d amino-acid / %d codon records, %d log lines", args, len(pc.Seqs), len(nt), len(aa), len(codon), len(pos))
 		}
-		ref := effectiveRef(pc)
+		ref := effectiveRefs(pc)
 		misframed := false
 		for _, s := range pc.Seqs {
 			n, ok1 := nt[s.Name]
